@@ -22,6 +22,15 @@ TRUSTED = [
     "Go harness harness/cmd/hC13 (generators, memory token provider, rendering of byte strings)",
     "numeric oracle: strconv.ParseFloat + an order-preserving integer key of finite float64 values, computed by "
     "the harness and supplied per case (float parsing itself is not modelled)",
+    "concurrency model of the active side (ModelBlock.v cstep/race_find): an Append is getTokenLIDs+createTIDs (one atomic "
+    "step) and fillFieldTIDs (a second step), several Appends may be pending; a search reads the field's TID list and "
+    "the value slice at two points of the schedule; the driver forces the order by parking the real FindPattern on "
+    "fieldsMu / tidMu (export hook frac/export_verif_c13_race.go; the step whose lock the driver holds is performed with "
+    "that step's own statements) - the Go memory model / lock implementation is trusted",
+    "TableLoader model (tl_load / tl_lookups): the index file enters as the list of its block lengths, the loader state is "
+    "its read cursor, the cache may evict before any lookup; decoding of the table blocks (packer.BytesUnpacker) is not "
+    "modelled; eviction in the run = Cache.Reset followed by the loader's real load() through the same cache "
+    "(frac/token/export_verif_c13_reload.go: TableLoader.Load without its logger.Fatal)",
     "BlockLoader cache and disk reader (cache.Cache, disk.IndexReader, zstd) are outside the model: Load(entry) is "
     "modelled as unpack of the physical block's bytes; goroutine scheduling of the TokenList workers enters only as "
     "the per-call arrival order (inferred by the harness from the TIDs the real list assigned); concurrent Append "
@@ -58,6 +67,10 @@ RULE = ("exhaustive: every pattern over {a,b,*} up to the tier's length x every 
         "call sequences jumping between entries and back over real writeTokensBlocks tables (entries in the middle of a "
         "block, several physical blocks), real TokenList.Append histories (1..4 workers) with the active provider of "
         "every field, real TokenList -> generator -> writer -> SelectEntries+Provider+Search. "
+        "Races: real FindPattern parked on fieldsMu / tidMu while an Append of new tokens of the searched field runs its "
+        "two publication steps during / after the park (all four forced orders, fixed and random shapes); reloads: >= 2 "
+        "lookups through ONE sealed data provider with the token table evicted and reloaded before each, on freshly "
+        "sealed and restarted fractions (one with several token blocks). "
         "non-trivial = a query with a wildcard and a text fragment, or a range with a given end (sealed: more than "
         "one table entry; blocks: more than one group or an empty / 0xFF / >= 255-byte token; provider: more than one "
         "entry and more than two calls; active list: more than two fields and more than one Append; writer: a chunked "
